@@ -223,7 +223,10 @@ EvalFails(e) ==
   \cup (IF Has(e, "e_swap_stalekey") /\ e.e_swap_stalekey # -e.e THEN {<<"C14", "side-relative-depends-on-key", D(<<e.e, e.e_swap_stalekey>>)>>} ELSE {})
   \cup (IF Has(e, "e_again") /\ e.e_again # e.e THEN {<<"C14", "not-a-function-of-the-position", D(<<e.e, e.e_again>>)>>} ELSE {})
   \cup (IF \E i \in 1..Len(e.e_var) : e.e_var[i] # e.e THEN {<<"C14", "depends-on-non-placement", D(e.e_var)>>} ELSE {})
-  \cup (IF BoundedMaterial(p.b) /\ (e.e >= EvalBound \/ e.e <= -EvalBound) THEN {<<"C14", "bound", D(e.e)>>} ELSE {})
+  \* "far below the range reserved for mate scores": at most half of the magnitude the search itself uses for a mate (logged
+  \* with the event), and in any case below the specification's own constant
+  \cup (LET bound == IF Has(e, "mate") /\ e.mate \div 2 < EvalBound THEN e.mate \div 2 ELSE EvalBound IN
+        IF BoundedMaterial(p.b) /\ (e.e >= bound \/ e.e <= -bound) THEN {<<"C14", "bound", D(<<e.e, bound>>)>>} ELSE {})
 
 (***************************************************************************)
 (* keypair: two engine states with their keys.  The key is a function of   *)
